@@ -301,4 +301,16 @@ def runF (H : J → β) (s : St β) : List (Step × Faults) → St β
   | (.start c, f) :: xs => runF H (startF H s c f).1 xs
   | (st, _) :: xs => runF H (step H s st).1 xs
 
+/-! ## the advertisement when the pairings cannot be listed (F66)
+
+  `isPaired` lists the entities (`Database.Entities`: the directory, then every entity file). The listing can fail — the
+  directory cannot be opened, one entity file cannot be read or does not parse. -/
+
+/-- `sf` after `updateMDNSReachability` / at the end of `NewIPTransport`: discoverable only when the listing succeeded
+    and holds no controller -/
+def advertised (listingFails : Bool) (es : List Entity) : Bool := !(listingFails || paired es)
+
+/-- before the repair: a failed listing was "not paired" -/
+def advertisedOld (listingFails : Bool) (es : List Entity) : Bool := listingFails || !paired es
+
 end Hc.Config
